@@ -75,6 +75,7 @@ struct Case {
    bool own = true;
    std::string cmp;
    bool steps = false;
+   bool preblack = false;      // chain flavour: the caller's nodes arrive coloured black (reused nodes, zero-filled storage)
    std::vector<std::string> keys;
    std::vector<std::string> probes;
 };
@@ -145,6 +146,7 @@ static void run_case(const Case& c, const std::vector<K>& keys, const std::vecto
          store.push_back(std::make_unique<CNode<K>>());
          store.back()->key = keys[i];
          store.back()->serial = int(i);
+         if (c.preblack) store.back()->color = rb_tree::Color::Black;
          long before = count_nodes(t.top());
          CNode<K>* p = t.insert(store.back().get(), ncmp);
          if (i) ret += ',';
@@ -277,6 +279,7 @@ int main()
       bool probing = false;
       while (ss >> tok) {
          if (tok == "steps") c.steps = true;
+         else if (tok == "preblack") c.preblack = true;
          else if (tok == "?") probing = true;
          else (probing ? c.probes : c.keys).push_back(tok);
       }
